@@ -12,7 +12,7 @@ REPO = os.environ.get('VERIF_REPO', '/repo')
 WORK = os.path.join(VERIF, '.work')
 FINDINGS_FILE = os.path.join(VERIF, 'known_findings.json')
 # self-test runs against a scratch copy of the repository must not touch the real evidence
-OUT = VERIF if REPO == '/repo' else os.path.join(WORK, 'alt')
+OUT = VERIF if REPO == '/repo' else os.path.join(WORK, 'alt_%d' % os.getpid())
 
 
 def use_repo():
